@@ -7,6 +7,7 @@ import (
 	"go/ast"
 	"go/token"
 	"go/types"
+	"reflect"
 	"sort"
 	"strings"
 )
@@ -649,7 +650,7 @@ func ruleR196(c *Ctx) {
 	what := "the answer to a task (error and handler, results, data outputs) reaches the token inside the flowAction the task replies with; the token stores the results, emits the ErrorTrace and applies the error mode. A reply of another kind ('the task has no outgoing flow, the token ends here anyway') drops all of that: nothing is stored, no error is traced, retry never re-requests"
 	n := 0
 	for _, f := range p.Funcs {
-		if f.Body == nil || f.Pkg.PkgPath != pathBpmn || f.Lit == nil {
+		if f.Body == nil || f.Pkg.PkgPath != pathBpmn {
 			continue
 		}
 		r := f.Root()
@@ -657,17 +658,6 @@ func ruleR196(c *Ctx) {
 			continue
 		}
 		in := info(f)
-		// the per-request goroutine: a literal that builds a FlowActionResponse
-		builds := false
-		inspectNoLit(f.Body, func(m ast.Node) bool {
-			if lit, ok := m.(*ast.CompositeLit); ok && isNamed(in.TypeOf(lit), pathBpmn, "FlowActionResponse") {
-				builds = true
-			}
-			return true
-		})
-		if !builds {
-			continue
-		}
 		inspectNoLit(f.Body, func(m ast.Node) bool {
 			s, ok := m.(*ast.SendStmt)
 			if !ok || !isReplyChan(in.TypeOf(s.Chan)) {
@@ -714,8 +704,27 @@ func ruleR197(c *Ctx) {
 	what := "an instance can be built with one context and started with another: its tokens live on after the instance's own context ended, the inner tracer keeps serving them until its senders are done — and the relay has to carry their traces (the CeaseFlowTrace among them) to the instance's tracer until then"
 	n := 0
 	for _, f := range p.Funcs {
-		if f.Body == nil || f.Pkg.PkgPath != pathTracing || f.Root().Obj == nil || f.Root().Obj.Name() != "NewRelay" {
+		if f.Body == nil || f.Pkg.PkgPath != pathTracing || f.Root().Obj == nil {
 			continue
+		}
+		if f.Root().Obj.Name() != "NewRelay" {
+			// a relay loop that was given a name: launched with go from NewRelay
+			launched := false
+			for _, h := range p.Funcs {
+				if h.Body == nil || h.Root().Obj == nil || h.Root().Obj.Name() != "NewRelay" {
+					continue
+				}
+				hin := info(h)
+				inspectNoLit(h.Body, func(m ast.Node) bool {
+					if gs, ok := m.(*ast.GoStmt); ok && callee(hin, gs.Call) == f.Root().Obj {
+						launched = true
+					}
+					return true
+				})
+			}
+			if !launched {
+				continue
+			}
 		}
 		in := info(f)
 		inspectNoLit(f.Body, func(m ast.Node) bool {
@@ -834,6 +843,30 @@ func ruleR199(c *Ctx) {
 				if len(a.Types) != 1 || !isNamed(a.Types[0], pathBpmn, "probeAction") {
 					continue
 				}
+				r199body(c, p, f, a.Body, &n, what)
+				// the probe may have been moved into a helper
+				for _, st := range a.Body {
+					for _, cl := range callsIn(st) {
+						if cf := p.byObj[callee(in, cl)]; cf != nil && cf.Pkg == f.Pkg && cf.Body != nil {
+							r199body(c, p, cf, cf.Body.List, &n, what)
+						}
+					}
+				}
+			}
+		}
+	}
+	if n == 0 {
+		c.Missing("probe loop", "no probeAction arm that evaluates conditions and collects indices was found")
+	}
+}
+
+func r199body(c *Ctx, p *Prog, f *FuncInfo, body []ast.Stmt, np *int, what string) {
+	in := info(f)
+	n := 0
+	{
+		{
+			{
+				a := struct{ Body []ast.Stmt }{body}
 				// error variables that come from the evaluation
 				errs := map[types.Object]bool{}
 				for _, st := range a.Body {
@@ -851,7 +884,7 @@ func ruleR199(c *Ctx) {
 					})
 				}
 				if len(errs) == 0 {
-					continue
+					return
 				}
 				for _, st := range a.Body {
 					inspectNoLit(st, func(m ast.Node) bool {
@@ -889,9 +922,7 @@ func ruleR199(c *Ctx) {
 			}
 		}
 	}
-	if n == 0 {
-		c.Missing("probe loop", "no probeAction arm that evaluates conditions and collects indices was found")
-	}
+	*np += n
 }
 
 func ruleR200(c *Ctx) {
@@ -1183,13 +1214,31 @@ func ruleR205(c *Ctx) {
 		}
 		in := info(f)
 		inspectNoLit(f.Body, func(m ast.Node) bool {
-			ls, ok := m.(*ast.LabeledStmt)
-			if !ok {
+			// the select that posts the request: labelled (re-entered with goto) or the body of a for loop
+			// (re-entered with continue)
+			var sel *ast.SelectStmt
+			label := ""
+			var loop *ast.ForStmt
+			switch x := m.(type) {
+			case *ast.LabeledStmt:
+				sel, _ = x.Stmt.(*ast.SelectStmt)
+				label = x.Label.Name
+			case *ast.SelectStmt:
+				if _, isLabeled := p.Parent(x).(*ast.LabeledStmt); !isLabeled {
+					sel = x
+				}
+			}
+			if sel == nil {
 				return true
 			}
-			sel, ok := ls.Stmt.(*ast.SelectStmt)
-			if !ok {
-				return true
+			for cur := p.Parent(sel); cur != nil; cur = p.Parent(cur) {
+				if fs, ok := cur.(*ast.ForStmt); ok {
+					loop = fs
+					break
+				}
+				if _, ok := cur.(*ast.FuncLit); ok {
+					break
+				}
 			}
 			// the clause kinds of this select
 			kind := map[*ast.CommClause]string{}
@@ -1235,7 +1284,12 @@ func ruleR205(c *Ctx) {
 			}
 			inspectNoLit(sel, func(z ast.Node) bool {
 				bs, ok := z.(*ast.BranchStmt)
-				if !ok || bs.Tok != token.GOTO || bs.Label == nil || bs.Label.Name != ls.Label.Name {
+				if !ok {
+					return true
+				}
+				isGoto := bs.Tok == token.GOTO && bs.Label != nil && label != "" && bs.Label.Name == label
+				isContinue := bs.Tok == token.CONTINUE && bs.Label == nil && loop != nil && innermostLoop(p, bs) == ast.Node(loop)
+				if !isGoto && !isContinue {
 					return true
 				}
 				n++
@@ -1247,7 +1301,7 @@ func ruleR205(c *Ctx) {
 						}
 					}
 				}
-				c.Check(k == "answer" || k == "termination", f, bs, "goto "+bs.Label.Name+" (the request is posted again)", what, "in the "+k+" clause")
+				c.Check(k == "answer" || k == "termination", f, bs, "jump back to the wait (the request is posted again)", what, "in the "+k+" clause")
 				return true
 			})
 			return true
@@ -1282,10 +1336,20 @@ func ruleR206(c *Ctx) {
 				if len(a.Types) != 1 || !isNamed(a.Types[0], pathBpmn, "FlowTrace") {
 					continue
 				}
-				// stores into a map field of the tracker
+				// stores into a map field of the tracker (in the arm, or in a method of the tracker the arm calls)
 				var stores []*ast.AssignStmt
 				var table *types.Var
+				bodies := append([]ast.Stmt{}, a.Body...)
+				armF := f // the finding is keyed by the function that dispatches over the trace, wherever the store sits
 				for _, st := range a.Body {
+					for _, cl := range callsIn(st) {
+						if cf := p.byObj[callee(in, cl)]; cf != nil && cf.Pkg == f.Pkg && cf.Body != nil && cf.Obj != nil && recvNamed(cf.Obj) != nil && recvNamed(cf.Obj) == recvNamed(r.Obj) {
+							bodies = append(bodies, cf.Body.List...)
+							f, in = cf, info(cf)
+						}
+					}
+				}
+				for _, st := range bodies {
 					inspectNoLit(st, func(m ast.Node) bool {
 						as, ok := m.(*ast.AssignStmt)
 						if !ok || len(as.Lhs) != 1 || len(as.Rhs) != 1 {
@@ -1340,7 +1404,7 @@ func ruleR206(c *Ctx) {
 						inherits = true
 					}
 				}
-				c.Check(inherits, f, stores[0], "cohort tag recorded for a flow in "+f.QName(), what, ifElse(inherits, "some recorded tag derives from the tracker's own records", fmt.Sprintf("%d store(s) into %s, every one records the id of the node that emitted the trace", len(stores), table.Name())))
+				c.Check(inherits, armF, stores[0], "cohort tag recorded for a flow in "+armF.QName(), what, ifElse(inherits, "some recorded tag derives from the tracker's own records", fmt.Sprintf("%d store(s) into %s, every one records the id of the node that emitted the trace", len(stores), table.Name())))
 			}
 		}
 	}
@@ -1905,5 +1969,355 @@ func ruleR216(c *Ctx) {
 	}
 	if n == 0 {
 		c.Missing("fitting loops", "no loop in a Satisfy method that sets a bit of a chain was found")
+	}
+}
+
+// ---- R217: the channel-operation classes of R0, for the inclusive gateway's tracker only ----
+
+func init() {
+	register(&Rule{ID: "R217", Title: "the tracker's wake-up is not lost: every channel operation of the inclusive gateway's flow tracker is in a discharged class — in particular a notification that is sent with select/default goes to a channel with room for it", Min: 3, Run: ruleR217})
+}
+
+func ruleR217(c *Ctx) {
+	start := len(*c.obs)
+	ruleR0(c, false)
+	var kept []Obligation
+	for _, o := range (*c.obs)[start:] {
+		if strings.Contains(o.Func, "flowTracker") {
+			kept = append(kept, o)
+		}
+	}
+	*c.obs = append((*c.obs)[:start], kept...)
+}
+
+// ---- R218 ----
+
+func init() {
+	register(&Rule{ID: "R218", Title: "a consumer registers once: RegisterEventConsumer is called where the consumer is constructed, never from a node's loop or from a method that runs per activation (there is no unsubscribe: every further registration delivers every event once more)", Min: 5, Run: ruleR218})
+}
+
+func ruleR218(c *Ctx) {
+	p := c.P
+	what := "an event source forwards an event to every registered consumer, once per registration. A catch event that registers each time it starts to listen is registered n times at its n-th activation: it receives every event n times, a parallel-multiple catch is credited with a definition it saw once, and fires on a set that was never complete"
+	n := 0
+	for _, f := range p.Funcs {
+		if f.Body == nil || f.Pkg.PkgPath != pathBpmn {
+			continue
+		}
+		_ = info(f)
+		inspectNoLit(f.Body, func(m ast.Node) bool {
+			cl, ok := m.(*ast.CallExpr)
+			if !ok || len(cl.Args) != 1 {
+				return true
+			}
+			se, ok := unparen(cl.Fun).(*ast.SelectorExpr)
+			if !ok || se.Sel.Name != "RegisterEventConsumer" {
+				return true
+			}
+			n++
+			// a constructor: named new… / New…, or a function that returns the object it registers
+			rootName := ""
+			if f.Root().Obj != nil {
+				rootName = f.Root().Obj.Name()
+			}
+			ctor := strings.HasPrefix(rootName, "new") || strings.HasPrefix(rootName, "New")
+			inLoop := innermostLoop(p, cl) != nil
+			c.Check(ctor && !inLoop, f, cl, "registration of "+exprString(cl.Args[0])+" as event consumer", what, ifElse(ctor && !inLoop, "in the constructor "+f.Root().QName(), fmt.Sprintf("in %s (constructor: %v, inside a loop: %v)", f.QName(), ctor, inLoop)))
+			return true
+		})
+	}
+	if n == 0 {
+		c.Missing("consumer registrations", "no call of RegisterEventConsumer was found in the engine package")
+	}
+}
+
+// ---- R219, R220 ----
+
+func init() {
+	register(&Rule{ID: "R219", Title: "wiring is read-only while instances run: no field of a SequenceFlow or of a node's wiring is assigned outside the functions that construct them (tokens share these objects across goroutines)", Min: 1, Run: ruleR219})
+	register(&Rule{ID: "R220", Title: "an element keeps the name its parent gave it: a hand-written MarshalXML that re-qualifies its start element builds the new name from start.Name.Local", Min: 5, Run: ruleR220})
+}
+
+func ruleR219(c *Ctx) {
+	p := c.P
+	what := "the *SequenceFlow values in a node's wiring are shared by every token that passes the node, each in its own goroutine. A field written on the way ('resolve the target once and keep it') is written and read concurrently without synchronisation: a data race on engine state, even if every writer stores the same value"
+	n := 0
+	shared := func(t types.Type) *types.Named {
+		if pt, ok := t.(*types.Pointer); ok {
+			t = pt.Elem()
+		}
+		nt := namedOf(t)
+		if nt == nil || nt.Obj().Pkg() == nil || nt.Obj().Pkg().Path() != pathBpmn {
+			return nil
+		}
+		switch nt.Obj().Name() {
+		case "SequenceFlow", "wiring":
+			return nt
+		}
+		return nil
+	}
+	for _, f := range p.Funcs {
+		if f.Body == nil || f.Pkg.PkgPath != pathBpmn {
+			continue
+		}
+		in := info(f)
+		rootName := ""
+		if f.Root().Obj != nil {
+			rootName = f.Root().Obj.Name()
+		}
+		ctor := strings.HasPrefix(rootName, "new") || strings.HasPrefix(rootName, "New") || strings.HasPrefix(rootName, "Make") || strings.HasPrefix(rootName, "Clone")
+		ast.Inspect(f.Body, func(m ast.Node) bool {
+			var lhs []ast.Expr
+			switch x := m.(type) {
+			case *ast.AssignStmt:
+				lhs = x.Lhs
+			case *ast.IncDecStmt:
+				lhs = []ast.Expr{x.X}
+			}
+			for _, l := range lhs {
+				se, ok := unparen(l).(*ast.SelectorExpr)
+				if !ok {
+					continue
+				}
+				fv := fieldOf(in, se)
+				if fv == nil {
+					continue
+				}
+				owner := shared(in.TypeOf(se.X))
+				if owner == nil {
+					continue
+				}
+				n++
+				c.Check(ctor, f, m, "write of "+owner.Obj().Name()+"."+fv.Name(), what, ifElse(ctor, "in a constructing function", "in "+f.QName()+", which runs while instances run"))
+			}
+			return true
+		})
+	}
+	// the constructors initialise through literals: count them as the positive instances
+	for _, f := range p.Funcs {
+		if f.Body == nil || f.Pkg.PkgPath != pathBpmn {
+			continue
+		}
+		in := info(f)
+		ast.Inspect(f.Body, func(m ast.Node) bool {
+			if lit, ok := m.(*ast.CompositeLit); ok && shared(in.TypeOf(lit)) != nil {
+				n++
+				c.Ok(f, lit, "literal of "+typeString(in.TypeOf(lit)), what, "fields set where the object is constructed", true)
+			}
+			return true
+		})
+	}
+	if n == 0 {
+		c.Missing("wiring construction", "no construction of a SequenceFlow or wiring was found")
+	}
+}
+
+func ruleR220(c *Ctx) {
+	p := c.P
+	what := "one Go type can serve several element names (ExtensionAssociation is olive:dataInput and olive:dataOutput); the encoder tells MarshalXML which one through start.Name. A MarshalXML that spells its name out writes both under one name: after a round trip the task's data output is a second data input"
+	n := 0
+	for _, f := range p.Funcs {
+		if f.Body == nil || f.Obj == nil || f.Obj.Name() != "MarshalXML" || f.Pkg.PkgPath != pathSchema || f.File == nil {
+			continue
+		}
+		if strings.HasSuffix(p.Fset.Position(f.File.Pos()).Filename, "_generated.go") {
+			continue
+		}
+		sig := f.Obj.Type().(*types.Signature)
+		if sig.Params().Len() != 2 {
+			continue
+		}
+		startP := sig.Params().At(1)
+		in := info(f)
+		// does the method rename its start element at all?
+		renames := false
+		derived := false
+		usesGivenName := func(e ast.Node, fi *FuncInfo, sp types.Object) bool {
+			fin := info(fi)
+			return mentionsDeep(e, func(z ast.Node) bool {
+				se, ok := z.(*ast.SelectorExpr)
+				if !ok || se.Sel.Name != "Local" {
+					return false
+				}
+				r := rootIdent(se)
+				return r != nil && objOf(fin, r) == sp
+			})
+		}
+		inspectNoLit(f.Body, func(m ast.Node) bool {
+			switch x := m.(type) {
+			case *ast.AssignStmt:
+				for i, l := range x.Lhs {
+					if r := rootIdent(l); r != nil && objOf(in, r) == types.Object(startP) && i < len(x.Rhs) {
+						if se, ok := unparen(l).(*ast.SelectorExpr); ok && (se.Sel.Name == "Name" || se.Sel.Name == "Local") {
+							renames = true
+							if usesGivenName(x.Rhs[i], f, startP) {
+								derived = true
+							}
+						}
+					}
+				}
+			case *ast.CallExpr:
+				// a helper that is handed the start element and returns the renamed one
+				if cf := p.byObj[callee(in, x)]; cf != nil && cf.Pkg == f.Pkg && cf.Body != nil && cf.Obj != nil {
+					csig := cf.Obj.Type().(*types.Signature)
+					for i, a := range x.Args {
+						if id, ok := unparen(a).(*ast.Ident); ok && objOf(in, id) == types.Object(startP) && i < csig.Params().Len() {
+							if isNamed(csig.Params().At(i).Type(), "encoding/xml", "StartElement") {
+								renames = true
+								if usesGivenName(cf.Body, cf, csig.Params().At(i)) {
+									derived = true
+								}
+							}
+						}
+					}
+				}
+			}
+			return true
+		})
+		if !renames {
+			continue
+		}
+		n++
+		// under how many element names is this type used? (fields of the schema's structs with an xml tag)
+		names := map[string]bool{}
+		if T := recvNamed(f.Obj); T != nil {
+			for _, pk := range p.Target {
+				if pk.PkgPath != pathSchema {
+					continue
+				}
+				sc := pk.Types.Scope()
+				for _, nm := range sc.Names() {
+					tn, ok := sc.Lookup(nm).(*types.TypeName)
+					if !ok {
+						continue
+					}
+					st, ok := tn.Type().Underlying().(*types.Struct)
+					if !ok {
+						continue
+					}
+					for i := 0; i < st.NumFields(); i++ {
+						ft := st.Field(i).Type()
+						if sl, ok := ft.(*types.Slice); ok {
+							ft = sl.Elem()
+						}
+						if pt, ok := ft.(*types.Pointer); ok {
+							ft = pt.Elem()
+						}
+						if namedOf(ft) != T {
+							continue
+						}
+						tag := reflectTag(st.Tag(i), "xml")
+						if tag == "" || tag == "-" {
+							continue
+						}
+						tag = strings.Split(tag, ",")[0]
+						if j := strings.LastIndexByte(tag, ' '); j >= 0 {
+							tag = tag[j+1:]
+						}
+						if tag != "" {
+							names[tag] = true
+						}
+					}
+				}
+			}
+		}
+		if len(names) < 2 && !derived {
+			c.Ok(f, f.Decl, f.QName()+" re-qualifies the name it was given", what, fmt.Sprintf("spelled out, and the type is used under one element name only %v", sortedKeys(names)), false)
+			continue
+		}
+		c.Check(derived, f, f.Decl, f.QName()+" re-qualifies the name it was given", what, ifElse(derived, "the new name is built from start.Name.Local", fmt.Sprintf("the new name does not depend on start.Name.Local although the type is used as %v", sortedKeys(names))))
+	}
+	if n == 0 {
+		c.Missing("re-qualifying marshalers", "no hand-written MarshalXML that renames its start element was found")
+	}
+}
+
+func reflectTag(tag, key string) string {
+	return reflect.StructTag(tag).Get(key)
+}
+
+// ---- R221 ----
+
+func init() {
+	register(&Rule{ID: "R221", Title: "a count is given back by whoever it was taken for: in the process set every WaitGroup.Done is a deferred call of the goroutine (or handler) the Add was made for — no compensating Done on a path of somebody else's function", Min: 3, Run: ruleR221})
+}
+
+func ruleR221(c *Ctx) {
+	p := c.P
+	what := "the watcher of a process that failed to start is still alive and gives its count back when the context ends. A compensating Done 'so that the set can complete' releases the same count a second time: the set completes one watcher too early, or — when the watcher's own Done comes last — the program dies with `sync: negative WaitGroup counter` in a library goroutine"
+	n := 0
+	for _, f := range p.Funcs {
+		if f.Body == nil || f.Pkg.PkgPath != pathBpmn {
+			continue
+		}
+		r := f.Root()
+		if r.Obj == nil || recvNamed(r.Obj) == nil || recvNamed(r.Obj).Obj().Name() != "ProcessSet" {
+			continue
+		}
+		in := info(f)
+		inspectNoLit(f.Body, func(m ast.Node) bool {
+			cl, ok := m.(*ast.CallExpr)
+			if !ok || !isSyncMethod(in, cl, "WaitGroup", "Done") {
+				return true
+			}
+			n++
+			_, deferred := p.Parent(cl).(*ast.DeferStmt)
+			c.Check(deferred, f, cl, "release of a count of the set's wait group in "+f.QName(), what, ifElse(deferred, "deferred: it belongs to this function's own count", "a bare Done on one path"))
+			return true
+		})
+	}
+	if n == 0 {
+		c.Missing("wait group releases", "no WaitGroup.Done in the methods of ProcessSet was found")
+	}
+}
+
+// ---- R222 ----
+
+func init() {
+	register(&Rule{ID: "R222", Title: "boundary events are looked up in the activity's own scope: where the harness collects the boundary events attached to its activity, it reads them from the scope element of its wiring (process or sub-process), not from the processes of the definitions", Min: 2, Run: ruleR222})
+}
+
+func ruleR222(c *Ctx) {
+	p := c.P
+	what := "a boundary event is declared in the scope of the activity it is attached to — for an activity inside a sub-process, in the subProcess element. Looked up among the top-level processes only, it is never found: its catch event is not built and the event is ignored while the activity waits"
+	n := 0
+	for _, f := range p.Funcs {
+		if f.Body == nil || f.Pkg.PkgPath != pathBpmn {
+			continue
+		}
+		in := info(f)
+		inspectNoLit(f.Body, func(m ast.Node) bool {
+			cl, ok := m.(*ast.CallExpr)
+			if !ok {
+				return true
+			}
+			se, ok := unparen(cl.Fun).(*ast.SelectorExpr)
+			if !ok || se.Sel.Name != "BoundaryEvents" {
+				return true
+			}
+			n++
+			fromDefinitions := func(e ast.Node) bool {
+				return mentionsDeep(e, func(z ast.Node) bool {
+					s2, ok := z.(*ast.SelectorExpr)
+					return ok && (s2.Sel.Name == "definitions" || s2.Sel.Name == "Processes")
+				})
+			}
+			bad := fromDefinitions(se.X)
+			if r := rootIdent(se.X); r != nil && !bad {
+				if o := objOf(in, r); o != nil && isLocalVar(f.Root(), o) {
+					defs, _ := localDefs(in, f.Root().Body, o)
+					for _, d := range defs {
+						if fromDefinitions(d) {
+							bad = true
+						}
+					}
+				}
+			}
+			c.Check(!bad, f, cl, "scope "+exprString(se.X)+" searched for boundary events", what, ifElse(bad, "taken from the definitions' top-level processes", "the scope element of the wiring"))
+			return true
+		})
+	}
+	if n == 0 {
+		c.Missing("boundary event lookup", "no call of BoundaryEvents() was found in the engine package")
 	}
 }
